@@ -75,3 +75,22 @@ Theorem C04_prim_ops_len : forall rw rl, In rw prim_ops -> In rl prim_ops ->
     run_l p rl a c = Ok (Z.of_nat (List.length (flat ss)), c').
 Proof. exact prim_ops_len. Qed.
 Print Assumptions C04_prim_ops_len.
+
+(* the hand-written Message impl of the runtime crate, ApplicationException (also through Box<M> / Arc<M>, which forward):
+   for every protocol, buffer kind and STARTING context of the protocol object, whenever encode() succeeds, size() started
+   from the same context returns exactly the number of bytes written and ends in the same context; on an object with nothing
+   pending both succeed and restore the context -- so size, size, encode (or two replies on one connection) agree *)
+From PV Require Import Thrift.AppMsg Proofs.AppMsgP.
+Theorem C04_app_exception : forall p k msg kind c ss c',
+  len_ok (List.length msg) = true -> in_s 32 kind -> pend_ok c ->
+  app_encode p k msg kind c = Ok (ss, c') ->
+  app_size p msg kind c = Ok (Z.of_nat (List.length (flat ss)), c') /\ pend_ok c'.
+Proof. exact app_exception_size. Qed.
+Print Assumptions C04_app_exception.
+
+Theorem C04_app_exception_balanced : forall p k msg kind c,
+  len_ok (List.length msg) = true -> in_s 32 kind -> w_pend c = None ->
+  exists ss, app_encode p k msg kind c = Ok (ss, c) /\
+             app_size p msg kind c = Ok (Z.of_nat (List.length (flat ss)), c).
+Proof. exact app_exception_balanced. Qed.
+Print Assumptions C04_app_exception_balanced.
